@@ -583,8 +583,8 @@ impl Engine for C07 {
     }
     fn bound(&self, tier: Tier) -> String {
         match tier {
-            Tier::Quick => "heading sequences of length <= 4; block forests <= 3 nodes nesting <= 3 (style variants <= 2 nodes); ordered lists of 8..12, 98..101 items".into(),
-            Tier::Thorough => "heading sequences of length <= 5; block forests <= 4 nodes nesting <= 4 (style variants <= 3 nodes); ordered lists of 8..12, 98..101, 999..1001 items".into(),
+            Tier::Quick => "heading sequences of length <= 5; block forests <= 4 nodes nesting <= 4 over the rich leaf alphabet (style variants <= 3 nodes); ordered lists of 8..12, 98..101 items".into(),
+            Tier::Thorough => "heading sequences of length <= 6; block forests <= 5 nodes over the basic leaf alphabet and <= 4 nodes over the rich one, nesting <= 4 (style variants <= 3 nodes); ordered lists of 8..12, 98..101, 999..1001 items".into(),
         }
     }
     fn assumptions(&self) -> Vec<String> {
@@ -594,7 +594,7 @@ impl Engine for C07 {
     }
     fn enumerate(&self, tier: Tier, emit: &mut dyn FnMut(&str)) {
         let thorough = tier == Tier::Thorough;
-        space::heading_sequences(if thorough { 5 } else { 4 }, emit);
+        space::heading_sequences(if thorough { 6 } else { 5 }, emit);
         let ns: &[usize] = if thorough { &[8, 9, 10, 11, 12, 98, 99, 100, 101, 999, 1000, 1001] } else { &[8, 9, 10, 11, 12, 98, 99, 100, 101] };
         for n in ns {
             emit(&space::scale_doc("ordered-items", *n));
@@ -602,9 +602,10 @@ impl Engine for C07 {
             emit(&s);
         }
         if thorough {
+            space::block_docs(5, 3, 4, false, emit);
             space::block_docs(4, 3, 4, true, emit);
         } else {
-            space::block_docs(3, 2, 3, true, emit);
+            space::block_docs(4, 3, 4, true, emit);
         }
     }
     fn features(&self, case: &str) -> Vec<String> {
